@@ -639,7 +639,77 @@ pub const DRY_TWINS: [(&str, &str); 36] = [
     ("none", "hotcold.dry"), ("none", "hotcold.packs.dry"), ("none", "repair_index.dry"), ("none", "repair_snap.delete.dry"),
 ];
 
+/// option values `ConfigOptions::apply` rejects: the first three are validated BEFORE `append_only` is assigned, the others after
+pub const REJECTED_OPTS: [&str; 9] = ["xver", "xchunk", "xcomp", "xtsize", "xtlimit", "xdsize", "xdlimit", "xminpct", "xmaxpct"];
+/// every command with an append-only guard (plus the CLI's `merge --delete`)
+pub const DESTRUCTIVE: [&str; 11] = [
+    "forget", "prune", "prune.instant", "repair_index", "repair_snap.delete", "rewrite.forget", "rewtrees.forget", "rewtrees.forget.excl",
+    "merge.delete", "config.tg", "repair_snap.delete.dry",
+];
+
+fn rejected_cfg(rng: &mut Rng) -> String {
+    format!("config.{}.{}", rng.pick(&["ao0", "ao0", "ao1", "tg"]), rng.pick(&REJECTED_OPTS))
+}
+
 pub fn generate(thorough: bool, rng: &mut Rng, ops: &mut Vec<String>, stats: &mut Stats) {
+    // ONE handle: append-only repository -> refused `apply_config` (valid `set_append_only(false)` + an option rejected inside
+    // `ConfigOptions::apply`, every rejectable option) -> each destructive command on the SAME handle: still refused, nothing
+    // removed.  Plain setup: every option x every command; the other setups: every command with two options each.
+    for setup in ["plain", "hc", "dmg", "hcdmg"] {
+        for (i, c) in DESTRUCTIVE.iter().enumerate() {
+            let opts: Vec<&str> = if setup == "plain" || thorough {
+                REJECTED_OPTS.to_vec()
+            } else {
+                vec![REJECTED_OPTS[3 + (i + setup.len()) % 6], *rng.pick(&REJECTED_OPTS)]
+            };
+            for x in opts {
+                ops.push(format!("c15 hnd {setup} config.ao0.{x},{c}"));
+                stats.hit(format!("op.hnd-rejected-then-destructive.{setup}"));
+            }
+        }
+        // the guard comes before the validation; a rejected change on a handle that is NOT append-only keeps it that way
+        // (and a rejected `set_append_only(true)` does not arm the guards of the handle)
+        for x in REJECTED_OPTS {
+            ops.push(format!("c15 hnd {setup} config.ao1.{x},config.tg.{x},config.ao0,config.ao1.{x},forget,config.ao0.{x},config.tg.{x},config.tg"));
+            ops.push(format!("c15 aox {setup} config.ao0.{x},forget,config.ao0,config.tg.{x},forget"));
+            stats.hit(format!("op.rejected-config.{setup}"));
+        }
+        // accepted changes on one handle: the handle's guards follow (off: allowed; on again: refused)
+        for c in ["forget", "prune", "rewrite.forget", "merge.delete"] {
+            ops.push(format!("c15 hnd {setup} config.ao0,{c}"));
+            ops.push(format!("c15 hnd {setup} config.ao0,config.ao1,{c}"));
+            ops.push(format!("c15 hnd {setup} config.ao0,config.ao1,config.ao0.xminpct,{c},config.ao0,{c}"));
+            stats.hit(format!("op.hnd-accepted.{setup}"));
+        }
+    }
+    // random one-handle histories: runs of config changes (accepted, refused by the guard, rejected by validation), each
+    // followed by a command on the same handle
+    for i in 0..(if thorough { 1500 } else { 120 }) {
+        let setup = ["plain", "plain", "hc", "dmg", "plain", "hcdmg"][i % 6];
+        let mut seq: Vec<String> = Vec::new();
+        let mut forgets = 0;
+        for _ in 0..rng.range(1, 4) {
+            for _ in 0..rng.range(1, 3) {
+                seq.push(match rng.below(8) {
+                    0 => "config.ao0".to_string(),
+                    1 => "config.ao1".to_string(),
+                    2 => rng.pick(&["config.tg", "config.ev", "config.none"]).to_string(),
+                    _ => rejected_cfg(rng),
+                });
+            }
+            let c = if rng.chance(2, 3) { *rng.pick(&DESTRUCTIVE) } else { *rng.pick(&AO_CMDS) };
+            let c = if c.contains(".keep") && !c.contains("repair") && !c.contains(".dry") { "merge" } else { c };
+            let c = if c == "forget" {
+                forgets += 1;
+                if forgets > 2 { "prune" } else { c }
+            } else {
+                c
+            };
+            seq.push(c.to_string());
+        }
+        ops.push(format!("c15 hnd {setup} {}", seq.join(",")));
+        stats.hit(format!("op.hnd-seq.{setup}"));
+    }
     // every command once on its own, right after the repository was marked append-only — on every setup
     for setup in ["plain", "hc", "dmg", "hcdmg"] {
         for c in AO_CMDS.iter().chain(RARE_CMDS.iter()).chain(["copy", "key.add,key.del"].iter()) {
@@ -678,6 +748,7 @@ pub fn generate(thorough: bool, rng: &mut Rng, ops: &mut Vec<String>, stats: &mu
                 }
                 3 => "copy".to_string(),
                 4 if rng.chance(1, if thorough { 4 } else { 8 }) => rng.pick(&RARE_CMDS).to_string(),
+                5 if rng.chance(1, 2) => rejected_cfg(rng),
                 _ => rng.pick(&AO_CMDS).to_string(),
             };
             // `rewrite.keep` doubles the number of snapshots: at most three per sequence
